@@ -316,12 +316,237 @@ fn producers_case(case: u64, rng: &mut Rng, rep: &mut Report) {
     }
 }
 
+
+// ---------------------------------------------------------------------------------------------
+// forced producer schedules through the failpoints of the hook commit
+
+struct ParkGate {
+    state: Mutex<(bool, bool)>, // (parked, released)
+    cv: std::sync::Condvar,
+}
+
+thread_local! {
+    static PARK_AT: std::cell::RefCell<Option<(String, Arc<ParkGate>)>> = const { std::cell::RefCell::new(None) };
+}
+
+fn install_failpoint_callbacks() {
+    static ONCE: std::sync::Once = std::sync::Once::new();
+    ONCE.call_once(|| {
+        for name in ["verif::delete_query::stamped", "verif::add_document::stamped", "verif::run::stamped"] {
+            let n = name.to_string();
+            let _ = fail::cfg_callback(name, move || {
+                let gate = PARK_AT.with(|p| {
+                    let b = p.borrow();
+                    match &*b {
+                        Some((which, g)) if *which == n => Some(g.clone()),
+                        _ => None,
+                    }
+                });
+                if let Some(g) = gate {
+                    // park only once per armed thread
+                    PARK_AT.with(|p| *p.borrow_mut() = None);
+                    let mut st = g.state.lock().unwrap();
+                    st.0 = true;
+                    g.cv.notify_all();
+                    let deadline = std::time::Instant::now() + std::time::Duration::from_secs(20);
+                    while !st.1 && std::time::Instant::now() < deadline {
+                        let (s2, _) = g.cv.wait_timeout(st, std::time::Duration::from_millis(100)).unwrap();
+                        st = s2;
+                    }
+                }
+            });
+        }
+    });
+}
+
+/// One producer is parked between drawing its opstamp and publishing its operation while the
+/// main thread adds, deletes, cuts a segment; checked by interval order.
+fn forced_producer_case(case: u64, rng: &mut Rng, rep: &mut Report) {
+    install_failpoint_callbacks();
+    let hs = hschema();
+    let threads = *rng.pick(&[1usize, 2]);
+    let index = Index::create_in_ram(hs.schema.clone());
+    let mut writer: IndexWriter = match index.writer_with_num_threads(threads, 15_000_000 * threads) {
+        Ok(w) => w,
+        Err(e) => {
+            rep.violation("api-error:writer", json!(e.to_string()));
+            return;
+        }
+    };
+    writer.set_merge_policy(Box::new(NoMergePolicy));
+    rep.eval();
+    let g = 1u64; // the group the parked operation is about
+    let mut next_id = 1u64;
+    let mk = |id: u64, grp: u64, pad: usize| MDoc { id, grp, val: Some(0), body: vec![0], tag: 0, pad };
+    // phase 1: documents definitely before the parked operation
+    let mut before: Vec<(u64, u64)> = vec![];
+    let committed_first = rng.bool();
+    for _ in 0..rng.urange(1, 6) {
+        let grp = rng.below(3);
+        if writer.add_document(mk(next_id, grp, 0).to_doc(&hs)).is_err() {
+            rep.violation("api-error:add", json!(null));
+            return;
+        }
+        before.push((next_id, grp));
+        next_id += 1;
+    }
+    if committed_first {
+        if let Err(e) = writer.commit() {
+            rep.violation("api-error:commit", json!(e.to_string()));
+            return;
+        }
+    }
+    let which = *rng.pick(&["delete", "delete", "add", "run"]);
+    let gate = Arc::new(ParkGate { state: Mutex::new((false, false)), cv: std::sync::Condvar::new() });
+    let parked_id = next_id;
+    next_id += 1;
+    let mut during: Vec<(u64, u64)> = vec![];
+    let mut main_deleted_g = false;
+    let mut cut = false;
+    let mut parked = false;
+    std::thread::scope(|s| {
+        let w = &writer;
+        let hsr = &hs;
+        let gate2 = gate.clone();
+        let h = s.spawn(move || {
+            let fp = match which {
+                "delete" => "verif::delete_query::stamped",
+                "add" => "verif::add_document::stamped",
+                _ => "verif::run::stamped",
+            };
+            PARK_AT.with(|p| *p.borrow_mut() = Some((fp.to_string(), gate2)));
+            match which {
+                "delete" => {
+                    w.delete_term(Pred::Grp(g).term(hsr).unwrap());
+                }
+                "add" => {
+                    let _ = w.add_document(mk(parked_id, g, 0).to_doc(hsr));
+                }
+                _ => {
+                    let _ = w.run(vec![
+                        tantivy::indexer::UserOperation::Delete(Pred::Grp(g).term(hsr).unwrap()),
+                        tantivy::indexer::UserOperation::Add(mk(parked_id, g, 0).to_doc(hsr)),
+                    ]);
+                }
+            }
+            PARK_AT.with(|p| *p.borrow_mut() = None);
+        });
+        // wait until the producer is parked after its stamp
+        {
+            let mut st = gate.state.lock().unwrap();
+            let deadline = std::time::Instant::now() + std::time::Duration::from_secs(5);
+            while !st.0 && std::time::Instant::now() < deadline {
+                let (s2, _) = gate.cv.wait_timeout(st, std::time::Duration::from_millis(50)).unwrap();
+                st = s2;
+            }
+            parked = st.0;
+        }
+        if parked {
+            // operations that overlap the parked one
+            for _ in 0..rng.urange(1, 5) {
+                let grp = rng.below(3);
+                let _ = w.add_document(mk(next_id, grp, 0).to_doc(hsr));
+                during.push((next_id, grp));
+                next_id += 1;
+            }
+            if rng.bool() {
+                // cut a segment while the parked operation is stamped but unpublished
+                let _ = w.add_document(mk(next_id, 2, CUTTER_PAD).to_doc(hsr));
+                during.push((next_id, 2));
+                next_id += 1;
+                cut = true;
+                std::thread::sleep(std::time::Duration::from_millis(30));
+            }
+            if rng.bool() {
+                w.delete_term(Pred::Grp(g).term(hsr).unwrap());
+                main_deleted_g = true;
+                // adds after main's own delete returned
+                let _ = w.add_document(mk(next_id, g, 0).to_doc(hsr));
+                during.push((next_id, g));
+                next_id += 1;
+            }
+        }
+        {
+            let mut st = gate.state.lock().unwrap();
+            st.1 = true;
+            gate.cv.notify_all();
+        }
+        let _ = h.join();
+    });
+    // phase 3: definitely after everything
+    let mut after: Vec<(u64, u64)> = vec![];
+    for _ in 0..rng.urange(0, 3) {
+        let grp = rng.below(3);
+        let _ = writer.add_document(mk(next_id, grp, 0).to_doc(&hs));
+        after.push((next_id, grp));
+        next_id += 1;
+    }
+    if let Err(e) = writer.commit() {
+        rep.violation("api-error:commit", json!(e.to_string()));
+        return;
+    }
+    let ids = match index.reader().map(|r| live_ids(&r.searcher())) {
+        Ok(Ok(i)) => i,
+        other => {
+            rep.violation("forced-producers:dump", json!(format!("{other:?}")));
+            return;
+        }
+    };
+    rep.count(if parked { "forced_producer_parked" } else { "forced_producer_gate_not_reached" }, 1);
+    let deleting = which == "delete" || which == "run";
+    let mut problems = vec![];
+    for (id, grp) in &before {
+        // added and returned before the parked operation was even called
+        let must_die = (deleting || main_deleted_g) && *grp == g;
+        if must_die && ids.contains(id) {
+            problems.push(format!("doc {id} (grp {grp}) added before a delete survives it"));
+        }
+        if !must_die && !ids.contains(id) {
+            problems.push(format!("doc {id} (grp {grp}) lost although no delete matches it"));
+        }
+    }
+    for (id, grp) in &during {
+        // overlapping the parked operation: may or may not be hit by it; by main's own delete
+        // only if added before it - keep it simple: group g is free, others must survive
+        if *grp != g && !ids.contains(id) {
+            problems.push(format!("doc {id} (grp {grp}) lost although no delete matches it"));
+        }
+    }
+    for (id, _grp) in &after {
+        if !ids.contains(id) {
+            problems.push(format!("doc {id} added after every delete returned is missing"));
+        }
+    }
+    if which != "delete" {
+        // the parked add itself: in `run` its own batch deletes g before adding it
+        if !ids.contains(&parked_id) && !main_deleted_g {
+            problems.push(format!("parked add {parked_id} is missing"));
+        }
+    }
+    let known: std::collections::BTreeSet<u64> = before.iter().chain(&during).chain(&after).map(|x| x.0).chain([parked_id]).collect();
+    for id in &ids {
+        if !known.contains(id) {
+            problems.push(format!("unknown doc {id}"));
+        }
+    }
+    for p in problems {
+        rep.violation(
+            format!("forced-producers:{}", p.split(' ').skip(2).take(6).collect::<Vec<_>>().join("-").chars().filter(|c| !c.is_ascii_digit() && *c != '(' && *c != ')').collect::<String>()),
+            json!({"case": case, "parked_op": which, "problem": p, "committed_first": committed_first, "cut": cut, "main_deleted_g": main_deleted_g}),
+        );
+    }
+    if parked {
+        rep.nontrivial(format!("forced:{which}:c{}:cut{}:md{}:t{threads}", committed_first as u8, cut as u8, main_deleted_g as u8));
+    }
+}
+
 fn main() {
     let ctx = Ctx::from_env("C02", "exploration");
     let n_seq = ctx.scale(160, 6000) as u64;
     let n_prod = ctx.scale(60, 3000) as u64;
     let mut rep = run_cases(&ctx, "seq", n_seq, seq_case);
     rep.merge(run_cases(&ctx, "producers", n_prod, producers_case));
+    rep.merge(run_cases(&ctx, "forced-producers", ctx.scale(60, 3000) as u64, forced_producer_case));
     simple_finish(
         &ctx,
         rep,
